@@ -228,3 +228,53 @@ contract(
     raises={"ValueError": "False"},
     name="set_reference_distance", native=False,
 )
+
+
+# ---------------------------------------------------------------- get_closest_atom: total, and never a water
+# Water optimisation asks for the closest non-water neighbour of every water atom.  Whatever the neighbourhood holds -
+# protein atoms, other waters, both or nothing - the call returns (a complete structure with waters is processed, C12):
+# the nearest eligible protein atom, or None when there is none; a water atom is never the answer.  The neighbourhood is
+# the cell query's result (a stub handing out any of four make-ups, coordinates symbolic).
+def GRES(nm, cls):
+    return Named(nm, Obj(f"pdb2pqr.aa:{cls}", name=Const("HOH" if cls == "WAT" else "LYS"), res_seq=Int, chain_id=Const("A"),
+                         ss_bonded_partner=Const(None)))
+
+
+def GATOM(nm, name, res):
+    return Named(nm, Obj("pdb2pqr.structures:Atom", name=Const(name), residue=res, x=Real, y=Real, z=Real,
+                         hacceptor=Bool, hdonor=Bool, bonds=Items()))
+
+
+def stub_near_cells(self, atom):
+    self.g_asked = self.g_asked + [atom]
+    return self.g_near
+
+
+def within(a, r):
+    return -r <= a.x and a.x <= r and -r <= a.y and a.y <= r and -r <= a.z and a.z <= r
+
+
+def _closest(tag, near, ens):
+    contract(
+        "pdb2pqr.debump:Debump.get_closest_atom", ["C12", "C14"],
+        params={"self": Obj("pdb2pqr.debump:Debump", cells=Named("the_cells", Obj("pdb2pqr.cells:Cells", g_near=Items(*near),
+                                                                                 g_asked=Items()))),
+                "atom": GATOM("me", "O", GRES("my_res", "WAT"))},
+        # (the cell query only returns atoms of adjacent cells: a few angstroms away, far below the 999.99 sentinel)
+        requires=["within(me, 100) and forall(the_cells.g_near, lambda a: within(a, 100))"],
+        ensures=["len(the_cells.g_asked) == 1 and the_cells.g_asked[0] is me"] + ens,
+        stubs={"pdb2pqr.cells:Cells.get_near_cells": "stub_near_cells"},
+        modifies=["the_cells.g_asked"],
+        name=f"get_closest_atom.{tag}", native=False, budget=5000,
+    )
+
+
+_closest("waters_only", [GATOM("w1", "O", GRES("wr1", "WAT")), GATOM("w2", "O", GRES("wr2", "WAT"))], ["result is None"])
+_closest("nothing_near", [], ["result is None"])
+_closest("protein_only", [GATOM("p1", "NZ", GRES("pr1", "LYS"))], ["result is p1"])
+_closest("water_and_protein", [GATOM("w1", "O", GRES("wr1", "WAT")), GATOM("p1", "NZ", GRES("pr1", "LYS")),
+                               GATOM("p2", "CE", Ref("pr1"))],
+         ["result is p1 or result is p2",
+          # the nearer of the two protein atoms
+          "implies(result is p2, d2(me, p2) < d2(me, p1))",
+          "implies(result is p1, d2(me, p1) <= d2(me, p2))"])
